@@ -196,6 +196,8 @@ def triage(unit, gen, vr, unit_cfg):
                 if o2[0] == "tpl" and o2[3] in ("loop", "contract") and "decreases" in lines[l2 - 1].text:
                     label, kind = o2[2], o2[3]
                     break
+        if cls == "precondition" and prim is not None and re.search(r"\b(unimplemented|unreachable|panic|todo)!\s*\(", "".join(x.get("text", "") for x in prim.get("text", []))):
+            cls = "panic-freedom"
         if label is None:
             label = where or "?"
         # property attribution
